@@ -276,9 +276,11 @@ func (g *progGen) fresh(prefix string) string {
 	return fmt.Sprintf("%s%d", prefix, g.nameSeq)
 }
 
-func (g *progGen) push()              { g.scopes = append(g.scopes, nil) }
-func (g *progGen) pop()               { g.scopes = g.scopes[:len(g.scopes)-1] }
-func (g *progGen) declare(v varInfo)  { g.scopes[len(g.scopes)-1] = append(g.scopes[len(g.scopes)-1], v) }
+func (g *progGen) push() { g.scopes = append(g.scopes, nil) }
+func (g *progGen) pop()  { g.scopes = g.scopes[:len(g.scopes)-1] }
+func (g *progGen) declare(v varInfo) {
+	g.scopes[len(g.scopes)-1] = append(g.scopes[len(g.scopes)-1], v)
+}
 func (g *progGen) line(format string, a ...any) {
 	g.b.WriteString(strings.Repeat("\t", g.indent))
 	fmt.Fprintf(&g.b, format, a...)
@@ -480,7 +482,10 @@ func (g *progGen) expr(t *ty, d int) string {
 				}
 				return fn + "(" + g.typedExpr(lt, d-1) + ")"
 			})
-			add(1, func() string { g.feat("copy"); return "copy(" + g.expr(g.u.by["[]int"], d-1) + ", " + g.expr(g.u.by["[]int"], d-1) + ")" })
+			add(1, func() string {
+				g.feat("copy")
+				return "copy(" + g.expr(g.u.by["[]int"], d-1) + ", " + g.expr(g.u.by["[]int"], d-1) + ")"
+			})
 			add(1, func() string {
 				g.feat("generic-call")
 				if g.o.NoGenerics {
@@ -494,7 +499,10 @@ func (g *progGen) expr(t *ty, d int) string {
 			})
 		}
 		if t.s == "uint8" {
-			add(1, func() string { g.feat("string-index"); return g.typedExpr(g.u.by["string"], d-1) + "[" + g.idx(d-1) + "]" })
+			add(1, func() string {
+				g.feat("string-index")
+				return g.typedExpr(g.u.by["string"], d-1) + "[" + g.idx(d-1) + "]"
+			})
 		}
 		if t.s == "int32" {
 			add(1, func() string { return "'x'" })
@@ -519,7 +527,10 @@ func (g *progGen) expr(t *ty, d int) string {
 			return t.s + "(" + g.typedExpr(src, d-1) + ")"
 		})
 	case kComplex:
-		add(2, func() string { g.feat("complex"); return "complex(" + g.typedExpr(g.u.by["float64"], d-1) + ", " + g.expr(g.u.by["float64"], d-1) + ")" })
+		add(2, func() string {
+			g.feat("complex")
+			return "complex(" + g.typedExpr(g.u.by["float64"], d-1) + ", " + g.expr(g.u.by["float64"], d-1) + ")"
+		})
 		add(2, func() string {
 			g.feat("arith")
 			return "(" + typedOperand(d-1) + " " + []string{"+", "-", "*"}[g.n("cop", 0, 2)] + " " + g.expr(t, d-1) + ")"
@@ -542,8 +553,16 @@ func (g *progGen) expr(t *ty, d int) string {
 					return "strconv.Itoa(" + g.expr(g.u.by["int"], d-1) + ")"
 				}
 			})
-			add(1, func() string { g.imports["strings"] = true; g.feat("pkg-call"); return "strings.ToUpper(" + g.expr(t, d-1) + ")" })
-			add(1, func() string { g.imports["fmt"] = true; g.feat("pkg-call"); return "fmt.Sprint(" + g.expr(g.simpleType(), d-1) + ", " + g.expr(g.simpleType(), d-1) + ")" })
+			add(1, func() string {
+				g.imports["strings"] = true
+				g.feat("pkg-call")
+				return "strings.ToUpper(" + g.expr(t, d-1) + ")"
+			})
+			add(1, func() string {
+				g.imports["fmt"] = true
+				g.feat("pkg-call")
+				return "fmt.Sprint(" + g.expr(g.simpleType(), d-1) + ", " + g.expr(g.simpleType(), d-1) + ")"
+			})
 			add(1, func() string { g.feat("method-call"); return g.typedExpr(g.u.by["error"], d-1) + ".Error()" })
 		} else {
 			add(1, func() string { g.feat("conv-string"); return t.s + "(" + g.typedExpr(g.u.by["string"], d-1) + ")" })
@@ -637,7 +656,10 @@ func (g *progGen) expr(t *ty, d int) string {
 			add(1, func() string { g.feat("field"); return g.typedExpr(g.u.by["T2"], d-1) + ".next" })
 		}
 		if t.s == "*int" {
-			add(1, func() string { g.feat("addr-of-index"); return "&" + g.typedExpr(g.u.by["[]int"], d-1) + "[" + g.idx(d-1) + "]" })
+			add(1, func() string {
+				g.feat("addr-of-index")
+				return "&" + g.typedExpr(g.u.by["[]int"], d-1) + "[" + g.idx(d-1) + "]"
+			})
 			add(1, func() string { g.feat("addr-of-field"); return "&" + g.leafAddr(g.u.by["S"]) + ".a" })
 		}
 	case kSlice:
@@ -698,7 +720,10 @@ func (g *progGen) expr(t *ty, d int) string {
 			add(1, func() string { g.feat("conv-string"); return "[]byte(" + g.expr(g.u.by["string"], d-1) + ")" })
 		}
 		if t.s == "[]string" {
-			add(1, func() string { g.feat("map-index"); return g.typedExpr(g.u.by["map[N][]string"], d-1) + "[" + g.expr(g.u.by["N"], d-1) + "]" })
+			add(1, func() string {
+				g.feat("map-index")
+				return g.typedExpr(g.u.by["map[N][]string"], d-1) + "[" + g.expr(g.u.by["N"], d-1) + "]"
+			})
 			if !g.o.NoGenerics {
 				add(1, func() string {
 					g.feat("generic-call")
@@ -708,7 +733,10 @@ func (g *progGen) expr(t *ty, d int) string {
 			}
 		}
 		if t.s == "List[float64]" {
-			add(1, func() string { g.feat("conv"); return "List[float64](" + g.sliceLit(&ty{s: "[]float64", k: kSlice, elem: g.u.by["float64"]}, d-1) + ")" })
+			add(1, func() string {
+				g.feat("conv")
+				return "List[float64](" + g.sliceLit(&ty{s: "[]float64", k: kSlice, elem: g.u.by["float64"]}, d-1) + ")"
+			})
 		}
 	case kArray:
 		add(3, func() string {
@@ -788,7 +816,13 @@ func (g *progGen) expr(t *ty, d int) string {
 		}
 	}
 	// generic producers for any type
-	add(1, func() string { e := g.nonLit(t, d); if e == "" { return g.leaf(t) }; return e })
+	add(1, func() string {
+		e := g.nonLit(t, d)
+		if e == "" {
+			return g.leaf(t)
+		}
+		return e
+	})
 	if !g.o.NoGenerics {
 		add(1, func() string { g.feat("generic-call"); return "Id(" + g.typedExpr(t, d-1) + ")" })
 	}
@@ -1002,7 +1036,10 @@ func (g *progGen) nonLit(t *ty, d int) string {
 			ps = append(ps, func() string { g.feat("index"); return g.typedExpr(ct, d-1) + "[" + g.idx(d-1) + "]" })
 		case ct.k == kArray && ct.elem == t:
 			ct := ct
-			ps = append(ps, func() string { g.feat("index"); return g.typedExpr(ct, d-1) + "[" + fmt.Sprint(g.n("ai", 0, ct.n-1)) + "]" })
+			ps = append(ps, func() string {
+				g.feat("index")
+				return g.typedExpr(ct, d-1) + "[" + fmt.Sprint(g.n("ai", 0, ct.n-1)) + "]"
+			})
 		case ct.k == kMap && ct.elem == t:
 			ct := ct
 			ps = append(ps, func() string { g.feat("map-index"); return g.typedExpr(ct, d-1) + "[" + g.expr(ct.key, d-1) + "]" })
